@@ -100,11 +100,11 @@ def parse_vc(ident, text):
             elif key == "decreases":
                 fs.decreases = val; sec = "decreases"
             elif key.startswith("loop"):
-                m = re.match(r"loop\s+(\d+)(\s+forloop)?$", key)
+                m = re.match(r"loop\s+(\d+)(\s+forloop)?(?:\s+\[([^\]]*)\])?$", key)
                 if not m:
                     raise ScanError("bad loop header in %s: %s" % (ident, key))
                 k = int(m.group(1))
-                fs.loops[k] = {"forloop": bool(m.group(2)), "text": ""}
+                fs.loops[k] = {"forloop": bool(m.group(2)), "text": "", "props": (m.group(3) or "").split() or None}
                 sec = ("loop", k)
             elif key.startswith("ghost"):
                 m = re.match(r"ghost\s+(before|after|first|last)(?:\s+/(.*)/)?(?:\s+#(\d+))?$", key)
@@ -120,7 +120,7 @@ def parse_vc(ident, text):
             ind = len(ln) - len(ln.lstrip())
             if base_indent is None:
                 base_indent = ind
-            if ind <= base_indent:
+            if ind <= base_indent and not ln.lstrip().startswith(("}", ")", "]")):
                 m = re.match(r"\s*(?:\[([^\]]*)\]\s*)?(.*)$", ln)
                 lab = m.group(1)
                 label, props = None, None
@@ -592,7 +592,7 @@ def add_fn(unit, fs):
         "id": fs.ident, "file": fs.file, "path": fs.path, "props": fs.props,
         "sha256": hashlib.sha256(orig.encode()).hexdigest(),
         "src_lines": [it.toks[0].line, it.toks[-1].line],
-        "out_lines": [fn_first, fn_last], "clauses": clauses, "nobody": fs.nobody,
+        "out_lines": [fn_first, fn_last], "clauses": clauses + [{"kind": "invariant", "label": "loop%d" % k, "props": sp.get("props") or fs.props, "text": " ".join(sp["text"].split())[:300], "lines": []} for k, sp in fs.loops.items()], "nobody": fs.nobody,
         "loops": len(loops),
     })
 
